@@ -97,18 +97,25 @@ CHECKS = {
          "copy-on-write). Tie: single- and multi-goroutine pattern histories on the real code (built with -race) against Go's regexp "
          "compiled from the same pattern, and an audit of the cache snapshot.",
          "Lean 4 proof (invariant over interleavings) + regenerated shape facts + regexp differential", "DESIGN.md §6 C15"),
- "C06": ("No-panic part of the C01 theorem for in-vocabulary schemas, decide-witness of the (fixed) out-of-range index, and the no-panic "
-         "oracle checked directly on the real code over a malformed-schema stream with every option combination (incl. json.Number); "
-         "the model's panic flag is compared with the code's. Partial: panics inside go-openapi/spec, swag and reflect are outside the model; "
-         "the no-panic theorem for degenerate schemas is not yet proved (correspondence only).",
-         "Lean 4 proof (panic flag of the model) + malformed-stream correspondence", "DESIGN.md §6 C06"),
- "C08": ("In the model a non-recycling validator is a pure function of (definition, value); the theorem is definitional and the assurance "
-         "comes from the tie: repeated use of one real validator object is compared with its first answer and with the model "
-         "(verdict, error set, match count).",
-         "Lean 4 model purity + repeated-use correspondence", "DESIGN.md §6 C08"),
+ "C06": ("Kernel-checked theorem that the model of the validator tree never panics for EVERY schema (no vocabulary condition: empty enum or "
+         "required, multipleOf <= 0, patterns that do not compile, unknown types and formats, keywords foreign to the instance kind), every "
+         "instance, every option, every oracle, every amount of $ref fuel and every setting of the deviation switches with the repaired "
+         "additional-items bound (the code as it is), provided the references that occur resolve (an unresolvable one is the documented panic: "
+         "theorem), by mutual structural induction through all eight sub-validators; decide-witness of the (fixed) out-of-range index. "
+         "Termination of the model is structural recursion. Tie: the model's panic flag and verdict are compared with the code's over a "
+         "malformed-schema stream with every option combination (incl. json.Number) and pre-check-shaped cases. Partial: panics inside "
+         "go-openapi/spec, swag and reflect are outside the model; termination of the code is observed, not proved.",
+         "Lean 4 proof (panic flag through the whole validator tree, mutual structural induction) + malformed-stream correspondence", "DESIGN.md §6 C06, §14"),
+ "C08": ("In the model a non-recycling validator is a pure function of (definition, value), so the theorems about repetition are definitional; "
+         "what carries the property is (T1) decide-obligations on tables regenerated from the source: every range loop of the validator files "
+         "that can be left early ranges over a slice/array of child validators or is an existence search (no verdict depends on Go's map order), and "
+         "the fields of the shared options object are assigned only by the option setters and once at the top of SpecValidator.Validate; and (T2) "
+         "repeated use of one real validator object compared with its first answer, with a fresh validator and with the model (verdict, error set, match count).",
+         "Lean 4 model purity + regenerated exit-range and option-write facts + repeated-use correspondence", "DESIGN.md §6 C08, §14"),
  "C12": ("Kernel-checked obligation over a table of every index/deref/field write and in-place expansion call site regenerated from the "
          "Go sources on every run (each must target validator-owned memory or be a documented expansion), plus deep before/after snapshots "
-         "of instance and schema on every generated case. Partial: aliasing is decided by a syntactic classification, not a heap semantics.",
+         "of instance and schema on every generated case, of doc.Raw() for every validated document and of the parsed doc.Spec() for accepted "
+         "documents without self-referential definitions. Partial: aliasing is decided by a syntactic classification, not a heap semantics.",
          "regenerated write-site table checked by decide + snapshot correspondence", "DESIGN.md §6 C12"),
  "C17": ("Theorems that validity is the absence of errors and that the one-shot composite lists exactly the result's duplicate-free errors "
          "(with C20), and correspondence of the full (code, name, kind) error set between the model and the code for random root paths, "
